@@ -43,6 +43,13 @@ void harness(void)
 #else
     ASSERT(r >= in_a && r <= in_b, "dice result lies within [a, b]");
 #endif
+#ifndef WITNESS
+    /* the base uniform variate, bit-exact: the conversion of the raw draw must not round up to 1.0 */
+    double base = cmb_random();
+    ASSERT(base >= 0.0 && base < 1.0, "cmb_random lies in [0, 1) for every raw draw");
+    unsigned bern = cmb_random_bernoulli(0.0);
+    ASSERT(bern == 0 || bern == 1, "bernoulli is 0 or 1");
+#endif
 #ifdef WITH_UNIFORM
     IN_F64(in_min); IN_F64(in_max);
     ASSUME(in_min < in_max && in_min >= -1.0e6 && in_max <= 1.0e6);
